@@ -11,6 +11,9 @@ pub mod c04;
 pub mod c05;
 pub mod c06;
 pub mod c06id;
+pub mod c06img;
+pub mod c08trk;
+pub mod c12fs;
 pub mod c07;
 pub mod c08;
 pub mod c09;
@@ -36,6 +39,9 @@ pub fn run(name: &str, ctx: &mut Ctx) -> bool {
         "c05" => c05::run(ctx),
         "c06" => c06::run(ctx),
         "c06id" => c06id::run(ctx),
+        "c06img" => c06img::run(ctx),
+        "c08trk" => c08trk::run(ctx),
+        "c12fs" => c12fs::run(ctx),
         "c07" => c07::run(ctx),
         "c08" => c08::run(ctx),
         "c09" => c09::run(ctx),
